@@ -7,7 +7,7 @@
            .replace_placeholders(..)             (Model/Outline.v)
            .completion(inputs).expect(..)        (Model/Completion.v; None = panic)
            + the empty completed definitions of the missing output predicates
-                                                 (Model/External.v missing_output_definitions; /repo <COMMIT-F17>)
+                                                 (Model/External.v missing_output_definitions; /repo 70e6ace)
        ; [INTUITIONISTIC, HT, CLASSIC].concat().compose(), apply_fixpoint on every formula
                                                  (Model/SimplIntuit.v, SimplClassic.v, StrategyCls.v;
                                                   panics of the classic rewrites visible)
